@@ -40,6 +40,7 @@ type ProjectRunner struct {
 	processStates     map[string]*types.ProcessState
 	runProcMutex      sync.Mutex
 	startMutex        sync.Mutex
+	updateMutex       sync.Mutex
 	runningProcesses  map[string]*Process
 	doneProcMutex     sync.Mutex
 	doneProcesses     map[string]*Process
@@ -991,6 +992,10 @@ func NewProjectRunner(opts *ProjectOpts) (*ProjectRunner, error) {
 }
 
 func (p *ProjectRunner) UpdateProject(project *types.Project) (map[string]string, error) {
+	// one update at a time: each one compares against the current configuration and
+	// replaces instances, two of them interleaved stop an instance that has no command yet
+	p.updateMutex.Lock()
+	defer p.updateMutex.Unlock()
 	newProcs := make(map[string]types.ProcessConfig)
 	delProcs := make(map[string]types.ProcessConfig)
 	updatedProcs := make(map[string]types.ProcessConfig)
@@ -1034,7 +1039,7 @@ func (p *ProjectRunner) UpdateProject(project *types.Project) (map[string]string
 	}
 	//Update processes
 	for name, proc := range updatedProcs {
-		err := p.UpdateProcess(&proc)
+		err := p.updateProcess(&proc)
 		if err != nil {
 			log.Err(err).Msgf("Failed to update process %s", name)
 			errs = append(errs, err)
@@ -1067,6 +1072,12 @@ func (p *ProjectRunner) ReloadProject() (map[string]string, error) {
 	return status, nil
 }
 func (p *ProjectRunner) UpdateProcess(updated *types.ProcessConfig) error {
+	p.updateMutex.Lock()
+	defer p.updateMutex.Unlock()
+	return p.updateProcess(updated)
+}
+
+func (p *ProjectRunner) updateProcess(updated *types.ProcessConfig) error {
 	isScaleChanged := false
 	validateProbes(updated.LivenessProbe)
 	validateProbes(updated.ReadinessProbe)
